@@ -14,5 +14,4 @@ for p in $PKGS; do
   pids="$pids $!"
 done
 for p in $pids; do wait $p || rc=1; done
-rm -rf /tmp/hio_*_test 2>/dev/null
 exit $rc
